@@ -41,6 +41,12 @@ fn build_tree(base: &Path) -> PathBuf {
     write(&root.join(".hidden/inner.st"), &format!("(* {HID} a *)\nPROGRAM Hid END_PROGRAM\n"));
     write(&root.join(".hiddenfile.st"), &format!("(* {HID} b *)\n"));
     std::os::unix::fs::symlink("../sibling", root.join("dirlink")).expect("symlink");
+    // a sibling whose path has the project root's path as a string prefix (project-backup, project2), reachable through links
+    write(&base.join("project-backup/secret.st"), &format!("(* {OUT} d *)\nPROGRAM Backup END_PROGRAM\n"));
+    write(&base.join("project-backup/keep/deep.txt"), &format!("{OUT} e"));
+    write(&base.join("project2/secret.st"), &format!("(* {OUT} f *)\nPROGRAM Two END_PROGRAM\n"));
+    std::os::unix::fs::symlink("../project-backup", root.join("backuplink")).expect("symlink");
+    std::os::unix::fs::symlink("../project2", root.join("lib/twolink")).expect("symlink");
     std::os::unix::fs::symlink("../outside.st", root.join("filelink.st")).expect("symlink");
     std::os::unix::fs::symlink(".", root.join("loop")).expect("symlink");
     root
@@ -100,6 +106,15 @@ fn path_strings(rng: &mut Rng) -> Vec<(String, &'static str)> {
         ("lib/.secret.st".into(), "hidden"),
         (".hidden".into(), "hidden"),
         (".hidden/new.st".into(), "hidden"),
+        ("backuplink/secret.st".into(), "via-dir-symlink-prefix-sibling"),
+        ("backuplink/new.st".into(), "via-dir-symlink-prefix-sibling"),
+        ("backuplink/keep".into(), "via-dir-symlink-prefix-sibling"),
+        ("backuplink/keep/deep.txt".into(), "via-dir-symlink-prefix-sibling"),
+        ("backuplink".into(), "via-dir-symlink-prefix-sibling"),
+        ("lib/twolink/secret.st".into(), "via-dir-symlink-prefix-sibling"),
+        ("lib/twolink/made/x.st".into(), "via-dir-symlink-prefix-sibling"),
+        ("../project-backup/secret.st".into(), "dotdot"),
+        ("../project2/new.st".into(), "dotdot"),
         ("dirlink/secret.st".into(), "via-dir-symlink"),
         ("dirlink/new.st".into(), "via-dir-symlink"),
         ("dirlink".into(), "via-dir-symlink"),
@@ -129,7 +144,7 @@ fn path_strings(rng: &mut Rng) -> Vec<(String, &'static str)> {
         ("..%2foutside.st".into(), "percent"),
     ];
     // a few random compositions
-    let parts = ["..", ".", "lib", "dirlink", ".hidden", "loop", "main.st", "", "new", "\\", "sub"];
+    let parts = ["..", ".", "lib", "dirlink", "backuplink", "twolink", ".hidden", "loop", "main.st", "", "new", "\\", "sub"];
     for _ in 0..8 {
         let n = 1 + rng.usize(5);
         let s: Vec<&str> = (0..n).map(|_| *rng.pick(&parts)).collect();
